@@ -631,6 +631,22 @@ func eq1(a, b *Term) *Term {
 	if a.IsConst() && b.IsConst() {
 		return BoolT(!distinctConsts(a, b))
 	}
+	if a.Sort == StringS && (a.Op == "str.++" || b.Op == "str.++") {
+		// cancel structurally equal leading and trailing parts
+		pa, pb := concatParts(a), concatParts(b)
+		i := 0
+		for i < len(pa) && i < len(pb) && pa[i] == pb[i] {
+			i++
+		}
+		ja, jb := len(pa), len(pb)
+		for ja > i && jb > i && pa[ja-1] == pb[jb-1] {
+			ja--
+			jb--
+		}
+		if i > 0 || ja < len(pa) {
+			return Eq(Concat(pa[i:ja]...), Concat(pb[i:jb]...))
+		}
+	}
 	if a.Sort == StringS {
 		// a concatenation with a non-empty constant part is not empty
 		for _, p := range [][2]*Term{{a, b}, {b, a}} {
@@ -925,12 +941,31 @@ func StrLt(a, b *Term) *Term {
 	}
 	return mk("str.<", BoolS, a, b)
 }
+func concatParts(t *Term) []*Term {
+	if t.Op == "str.++" {
+		return t.Args
+	}
+	return []*Term{t}
+}
+
 func StrPrefixOf(p, s *Term) *Term {
 	if p.Op == "str" && s.Op == "str" {
 		return BoolT(strings.HasPrefix(s.SVal, p.SVal))
 	}
 	if p.Op == "str" && p.SVal == "" {
 		return True
+	}
+	if p == s {
+		return True
+	}
+	// strip structurally equal leading parts
+	pp, sp := concatParts(p), concatParts(s)
+	k := 0
+	for k < len(pp) && k < len(sp) && pp[k] == sp[k] {
+		k++
+	}
+	if k > 0 {
+		return StrPrefixOf(Concat(pp[k:]...), Concat(sp[k:]...))
 	}
 	return mk("str.prefixof", BoolS, p, s)
 }
